@@ -163,6 +163,14 @@ def flagsTrace : List Flags :=
   let f2 : Flags := { f1 with done := true }         -- effect returned; close(): isClosed.Set(true)
   [f0, f1, f2]
 
+/-- `donotyf v=V`: the effect run by DoNotation is a caller like any other: one YieldFrom(target, V) against a
+    target yielding V+100 (the coroutine system above), and DoNotation returns what the effect returns -/
+def donotYf (v : Nat) : String :=
+  let s := runRR (fun _ => v + 100) 5 1 16 (init (fun i => if i = 0 then [v] else []) none)
+  match s.got 0, xsOf 0 s.served with
+  | [y], [x] => (match doNotation y with | some r => s!"ok {r} saw={x}" | none => "hang")
+  | _, _ => "viol model-run"
+
 def b01 (b : Bool) : String := if b then "b1" else "b0"
 
 def handle (line : String) : String :=
@@ -170,7 +178,11 @@ def handle (line : String) : String :=
   | "pair" :: ps => pairCase ps
   | "zero" :: _ => zeroCase
   | ["donot", p] => match doNotation ((kv [p] "v").toNat?.getD 0) with | some v => s!"ok {v}" | none => "hang"
-  | ["yfio", p] => match doNotation ((kv [p] "v").toNat?.getD 0) with | some v => s!"ok {v}" | none => "hang"
+  | "yfio" :: ps =>
+    -- the IO's value: v, or v+1 through the FlatMap chain; where it is observed and how long it takes do not matter
+    let v := (kv ps "v").toNat?.getD 0
+    match doNotation (if kv ps "flat" == "1" then v + 1 else v) with | some r => s!"ok {r}" | none => "hang"
+  | ["donotyf", p] => donotYf ((kv [p] "v").toNat?.getD 0)
   | ["flags"] => " ".intercalate (flagsTrace.map (fun f => b01 f.started ++ " " ++ b01 f.done))
   | _ => "bad-line"
 
